@@ -34,7 +34,7 @@ m = {
         "guard": "arc_swap_verif",
         "enable": "RUSTFLAGS --cfg arc_swap_verif (set in /verif/harness/.cargo/config.toml; the harness depends on /repo by path and is rebuilt by every check)",
         "baseline_off_cmd": "cd /repo && cargo nextest run --workspace --no-fail-fast --tool-config-file pb:/w/lib/nextest.toml --profile pb --test-threads 8 --offline",
-        "source_commits": [hooks_commit],
+        "source_commits": [hooks_commit, "591a88c"],
         "add_only": True,
     },
     "engines": [{"name": "tla-conformance", "path": "/verif/check", "serves_properties": [c["property_id"] for c in checks],
